@@ -356,6 +356,20 @@ func (c *Ctx) checkFileAppenderSemantics(r *Report, ro *Roles, rule string) map[
 			steps = append(steps, step{what: "the first write after a boundary following the restart", at: t1.Truncate(10 * time.Minute).Add(10*time.Minute + time.Second), op: "write", data: "r2\n"})
 		}
 		steps = append(steps, step{what: "Stop while Sync reports an error", at: t1.Add(time.Hour), op: "stop", syncErr: true})
+		if rotating {
+			// a third life: stopped right after a boundary at which the next file could not be created (the appender
+			// still owns the previous file), then stopped again and restarted
+			t2 := t0.Add(8 * time.Hour)
+			b2 := t2.Truncate(10 * time.Minute).Add(10 * time.Minute)
+			steps = append(steps, step{what: "Start (third life)", at: t2, op: "start"},
+				step{what: "a write in the starting interval (third life)", at: t2.Add(2 * time.Second), op: "write", data: "s1\n"},
+				step{what: "the first write after a boundary at which the next file cannot be created (third life)", at: b2.Add(2 * time.Second), failing: true, op: "write", data: "s2\n"},
+				step{what: "Stop right after the failed rotation", at: b2.Add(3 * time.Second), failing: true, op: "stop"},
+				step{what: "a second Stop after the failed rotation", at: b2.Add(4 * time.Second), op: "stop"},
+				step{what: "Start after that (fourth life)", at: b2.Add(time.Hour), op: "start"},
+				step{what: "a write in the fourth life", at: b2.Add(time.Hour + time.Second), op: "write", data: "s3\n"},
+				step{what: "Stop (fourth life)", at: b2.Add(2 * time.Hour), op: "stop"})
+		}
 		var oodWhy string
 		{
 			// an appender whose Start never ran (or failed): a log call and Stop must not panic
